@@ -127,8 +127,69 @@ def _iszero(env, x):
     return x == 0
 
 
+def h_flag(env, K=3, N=5, lead=(2,)):
+    """flag initialiser: non-assigned classes get exactly `minimum`, the assigned class the remainder"""
+    from pb_bss.initializer.deterministic import flag
+    mn = env.real('minimum', (), lo=1e-6, hi=1.0 / K - 1e-6)
+    Y = np.ones(tuple(lead) + (N, 2))
+    init = flag(Y, K, permutation_free=True, minimum=mn if env.sym else float(mn))
+    env.shape_is('init', init, tuple(lead) + (K, N))
+    lab = np.linspace(0, K, N, dtype=int, endpoint=False)
+    for li in np.ndindex(*lead):
+        for n in range(N):
+            s = 0.0
+            for k in range(K):
+                v = env.el(init, li + (k, n))
+                s = s + v
+                if k == lab[n]:
+                    env.eq('assigned_gets_remainder%s[%d,%d]' % (list(li), k, n), v, 1 - (K - 1) * env.el(mn))
+                else:
+                    env.eq('others_get_minimum%s[%d,%d]' % (list(li), k, n), v, env.el(mn))
+            env.eq('sums_to_one%s[%d]' % (list(li), n), s, 1.0)
+    init0 = flag(Y, K, permutation_free=True)
+    env.eq('minimum0_is_one_hot', init0, np.broadcast_to(np.eye(K)[lab].T, tuple(lead) + (K, N)))
+
+
+def h_cacgmm_predict(env, K=2, N=1, D=2, mask=True, api='predict'):
+    """CACGMM.predict / fit_predict: Bayes posterior from the component's own log_pdf and the stored weights; inactive
+    sources get exactly zero"""
+    from pb_bss.distribution import CACGMM, ComplexAngularCentralGaussian, CACGMMTrainer
+    y = env.cplx('y', (N, D), lo=-2, hi=2)
+    m_act = env.boolean('act', (K, N), fork=True) if mask else None
+    if api == 'predict':
+        V = env.cplx('V', (K, D, D), lo=-1, hi=1)
+        w = env.real('w', (K, D), lo=1e-3, hi=1)
+        pi = env.real('pi', (K, 1), lo=0.05, hi=1)
+        model = CACGMM(weight=pi, cacg=ComplexAngularCentralGaussian(covariance_eigenvectors=V, covariance_eigenvalues=w))
+        post = model.predict(y, source_activity_mask=m_act)
+    else:
+        init = env.real('g', (K, N), lo=0.05, hi=1)
+        post = CACGMMTrainer().fit_predict(y, initialization=init, iterations=1, source_activity_mask=m_act)
+        model = CACGMMTrainer().fit(y, initialization=init, iterations=1, source_activity_mask=m_act)
+        pi = model.weight
+    env.shape_is('posterior', post, (K, N))
+    lps = [ComplexAngularCentralGaussian(covariance_eigenvectors=model.cacg.covariance_eigenvectors[k],
+                                         covariance_eigenvalues=model.cacg.covariance_eigenvalues[k]).log_pdf(y) for k in range(K)]
+    for n in range(N):
+        act = [env.el(m_act, (k, n)) if mask else True for k in range(K)]
+        g = [env.el(post, (k, n)) for k in range(K)]
+        for k in range(K):
+            env.true('zero_if_inactive[%d,%d]' % (k, n), _implies(env, _not(act[k]), _iszero(env, g[k])))
+        l = [env.el(lps[k], (n,)) for k in range(K)]
+        shift = 0.0 if env.sym else max(l)
+        for k, j in itertools.combinations(range(K), 2):
+            lhs = g[k] * env.el(pi, (j, 0)) * _b2r(env, act[j]) * env.exp(l[j] - shift)
+            rhs = g[j] * env.el(pi, (k, 0)) * _b2r(env, act[k]) * env.exp(l[k] - shift)
+            env.eq('bayes%d%d[%d]' % (k, j, n), lhs, rhs, atol=1e-12)
+
+
 def cases(tier):
     cs = []
+    cs.append(Case('h3/flag_K3', h_flag, dict(K=3, N=5, lead=(2,)), bounds='K=3 N=5 leading (2,), symbolic minimum in (0, 1/K)'))
+    cs.append(Case('h3/flag_K2', h_flag, dict(K=2, N=3, lead=(1, 1)), bounds='K=2 N=3 leading (1,1)'))
+    cs.append(Case('h2/cacgmm_predict_mask', h_cacgmm_predict, dict(K=2, N=1, D=2, mask=True, api='predict'), bounds='K=2 N=1 D=2, all masks', timeout_ms=60000))
+    cs.append(Case('h2/cacgmm_fit_predict_mask', h_cacgmm_predict, dict(K=2, N=1, D=2, mask=True, api='fit_predict'), bounds='K=2 N=1 D=2, one iteration, all masks',
+                   timeout_ms=60000, lazy=True))
     quick = tier == 'quick'
     for wform in ['K1', 'KN', 'scalar']:
         for mask in [False, True]:
